@@ -140,3 +140,30 @@ def share(workflow_id, owner, member, status='pending'):
         return m.id
     finally:
         auth_context.set_ctx(None)
+
+
+def share_history(workflow_id, wf_name, owner, member, how):
+    """A membership with a history: accepted, *used* by the member (read by
+    id, by name and through the listing - whatever the service remembers
+    about the share is remembered now), then withdrawn by the owner
+    ('revoked') or given up by the member ('left')."""
+    from mistral import context as auth_context
+    from mistral.db.v2 import api as db_api
+    share(workflow_id, owner, member, 'accepted')
+    auth_context.set_ctx(boot.default_ctx(member))
+    try:
+        with db_api.transaction():
+            db_api.get_workflow_definition(workflow_id)
+            db_api.get_workflow_definition(wf_name)
+            db_api.get_workflow_definitions()
+        if how == 'left':
+            with db_api.transaction():
+                db_api.update_resource_member(workflow_id, 'workflow',
+                                              member, {'status': 'rejected'})
+        else:
+            auth_context.set_ctx(boot.default_ctx(owner))
+            with db_api.transaction():
+                db_api.delete_resource_member(workflow_id, 'workflow',
+                                              member)
+    finally:
+        auth_context.set_ctx(None)
